@@ -491,6 +491,13 @@ def sampling_rules(chk, repo, clause):
             inner0 = nf.strip_apps(a[2][0], ('copy', 'cast', 'asarray', 'array'))
             inner = inner0.single_atom() if isinstance(inner0, Poly) else None
             elem = None
+            if inner is not None and is_app(inner, ('diff', 'ediff1d')) and any(
+                    x[0] == 'app' and isinstance(x[1], str) and x[1].split('.')[-1] in ('hstack', 'concatenate', 'union1d', 'r_')
+                    for x in nf.value_atoms(inner[2][0])):
+                # the spacing of the two grids merged into one: samples of one operand falling between samples of the other
+                # make it finer than the sampling of either (offset or interleaved grids)
+                ok_list, det_list = False, det_list + ': the smallest gap of the merged grids, not the finer of the two samplings'
+                continue
             if inner is not None and inner[0] == 'loop':
                 for lp in p.state.loops:
                     for ends in lp['ends']:
